@@ -125,6 +125,14 @@ def direct_terms(ctx):
     out.append(make_term(
         ty.TypedDictT("<td>", {"a": (ty.Cls(float), True), "b": (ty.Cls(str), False)}),
         TypedDictValue({"a": TypedDictEntry(F), "b": TypedDictEntry(S, required=False)}), "TypedDictValue({a: float, b?: str})"))
+    # every (required, readonly) combination of one key, for two value types
+    for vt, vty, vname in ((I, ty.Cls(int), "int"), (F, ty.Cls(float), "float")):
+        for required in (True, False):
+            for readonly in (True, False):
+                out.append(make_term(
+                    ty.TypedDictT("<td>", {"k": (vty, required)}),
+                    TypedDictValue({"k": TypedDictEntry(vt, required=required, readonly=readonly)}),
+                    f"TypedDictValue({{k: {'' if required else 'NotRequired '}{'ReadOnly ' if readonly else ''}{vname}}})"))
     out.append(make_term(ty.TypeOf(ty.Cls(prelude.A)), SubclassValue(TypedValue(prelude.A)), "SubclassValue(A)"))
     out.append(make_term(ty.TypeOf(ty.Cls(int)), SubclassValue(TypedValue(int)), "SubclassValue(int)"))
     return out
@@ -185,6 +193,8 @@ def soundness_mechanism(A: Term, B: Term, u) -> str:
         return "fixed-tuple<-variadic|element-type-not-accepted-by-every-position"
     if A.t.kind == "TypedDict" and B.t.kind in ("Dict", "Map") and isinstance(u.obj, dict):
         return "typeddict-accepts-plain-dict-of-str-keys"
+    if A.t.kind == "TypedDict" and isinstance(u.obj, dict) and any(not isinstance(k, str) for k in u.obj):
+        return "typeddict-accepts-dict-literal-with-non-str-key"
     if A.t.kind == "Lit" and B.t.kind == "Lit" and isinstance(u.obj, (list, tuple, dict, set, frozenset)):
         return "literal-container-equality-crosses-bool-int"
     return f"{A.t.kind}<-{B.t.kind}"
